@@ -139,6 +139,72 @@ def _check(repo: str, tmp: str, app_len: int, start: int, ivt_offset: int, ils: 
     return ""
 
 
+def _encrypted(repo: str, tier: str) -> dict:
+    """Encrypted HAB images (repository example rt1160_RAM_encrypted, every MAC length): the blocks listed in the Decrypt Data command,
+    decrypted with AES-CCM by `cryptography` with the DEK, nonce and MAC found in the CSF, restore the 16-byte padded application."""
+    from cryptography.exceptions import InvalidTag
+    from cryptography.hazmat.primitives.ciphers.aead import AESCCM
+
+    from spsdk.image.hab.hab_container import HabContainer
+    from spsdk.utils.images import BinaryImage
+
+    cfg_dir = os.path.join(repo, "tests", "nxpimage", "data", "hab", "export", "rt1160_RAM_encrypted")
+    app_file = os.path.join(cfg_dir, "validationboard_imxrt1160_iled_blinky_cm7_int_RAM.s19")
+    dek = open(os.path.join(cfg_dir, "gen_hab_encrypt", "validationboard_imxrt1160_iled_blinky_cm7_int_RAM_hab_dek.bin"), "rb").read()
+    fails: list = []
+    n = 0
+    for mac_bytes in ((4, 8, 12, 16) if tier == "quick" else (4, 6, 8, 10, 12, 14, 16)):
+        n += 1
+        try:
+            cfg = HabContainer.load_configuration(os.path.join(cfg_dir, "config_pk.bd"), external_files=[app_file])
+            for section in cfg["sections"]:
+                if section["section_id"] == 28:
+                    for opt in section["options"]:
+                        for key in list(opt):
+                            if key.lower() == "decrypt_macbytes":
+                                opt[key] = mac_bytes
+            image = HabContainer.load_from_config(cfg, search_paths=[cfg_dir]).export()
+            plain_app = BinaryImage.load_binary_image(app_file).export()
+            plain_app += bytes(-len(plain_app) % 16)
+            _e, _r1, _dcd, _bdt, ivt_self, csf_addr, _r2 = struct.unpack_from("<7L", image, 4)
+            csf_off = csf_addr - ivt_self
+            tag, csf_len, _v = struct.unpack_from(">BHB", image, csf_off)
+            pos, dec = csf_off + 4, None
+            while tag == 0xD4 and pos < csf_off + csf_len:
+                ctag, clen, _p = struct.unpack_from(">BHB", image, pos)
+                if clen < 4:
+                    break
+                if ctag == 0xCA and image[pos + 5] == 0xA3:      # AUT_DAT with AEAD signature format = Decrypt Data
+                    dec = (struct.unpack_from(">L", image, pos + 8)[0], [struct.unpack_from(">2L", image, q) for q in range(pos + 12, pos + clen, 8)])
+                pos += clen
+            err = ""
+            if dec is None:
+                err = "no Decrypt Data command found through the IVT's CSF pointer"
+            else:
+                mac_off = csf_off + dec[0]
+                mtag, mlen, _v = struct.unpack_from(">BHB", image, mac_off)
+                _a, nonce_len, _b, mac_len = struct.unpack_from(">4B", image, mac_off + 4)
+                nonce = image[mac_off + 8: mac_off + 8 + nonce_len]
+                mac = image[mac_off + 8 + nonce_len: mac_off + 8 + nonce_len + mac_len]
+                cipher = b"".join(image[a - ivt_self: a - ivt_self + sz] for a, sz in dec[1])
+                if mtag != 0xAC or mlen != 8 + nonce_len + mac_len or mac_len != mac_bytes:
+                    err = f"MAC structure: tag {mtag:#x}, length {mlen}, nonce {nonce_len}, mac {mac_len} (requested {mac_bytes})"
+                else:
+                    try:
+                        if AESCCM(dek, tag_length=mac_len).decrypt(nonce, cipher + mac, None) != plain_app:
+                            err = "decrypted blocks differ from the padded application"
+                    except InvalidTag:
+                        err = "AES-CCM authentication of the listed blocks with the DEK, nonce and MAC from the CSF fails"
+            if err:
+                fails.append({"inputs": {"example": "rt1160_RAM_encrypted", "Decrypt_MacBytes": mac_bytes}, "detail": err, "obligation": "encrypted-hab-image-decrypts-independently"})
+        except Exception as e:  # pylint: disable=broad-except
+            fails.append({"inputs": {"example": "rt1160_RAM_encrypted", "Decrypt_MacBytes": mac_bytes}, "detail": f"{type(e).__name__}: {e}",
+                          "obligation": "encrypted-hab-image-decrypts-independently"})
+    return {"name": "encrypted HAB images decrypted independently", "function": "spsdk.image.hab.segments:CsfHabSegment.encrypt / HabContainer.export",
+            "method": "repository example rt1160_RAM_encrypted with every MAC length; CSF decoded by hand; AES-CCM by cryptography", "bound": f"{n} images",
+            "cases": n, "label": "bounded", "failures": fails[:4]}
+
+
 def run(tier: str, seed: int, reg: Any, jobs: int = 16) -> list:
     import random
 
@@ -162,7 +228,8 @@ def run(tier: str, seed: int, reg: Any, jobs: int = 16) -> list:
                     if err and len(fails) < 4:
                         fails.append({"inputs": {"app_len": hex(app_len), "start": hex(start), "ivt_offset": hex(ivt_offset), "initial_load": hex(ils),
                                                  "flags": flags}, "detail": err, "obligation": "hab-image-decoded-by-hand"})
-    return [{"name": "HAB images decoded by hand (layout, block list, independent CMS check, parse back)",
+    enc = _encrypted(repo, tier)
+    return [enc, {"name": "HAB images decoded by hand (layout, block list, independent CMS check, parse back)",
              "function": "spsdk.image.hab.hab_container:HabContainer.load_from_config/export/parse",
              "method": "authenticated (RSA-2048 test keys) and plain images over 3 layouts x application lengths dense around the 16 B / 4 KiB boundaries",
              "bound": f"{n} images", "cases": n, "label": "bounded", "failures": fails}]
